@@ -106,6 +106,7 @@ func genC06(r *Rng, n int, tier string, emit func(Case)) {
 	if tier == "thorough" {
 		maxd = 7
 	}
+	var prevDoc []interface{}
 	for i := 0; i < n; i++ {
 		g := &sgen{r: r.Fork()}
 		var doc []interface{}
@@ -117,6 +118,13 @@ func genC06(r *Rng, n int, tier string, emit func(Case)) {
 		}
 		data := J{"s": []string{"<&>", "plain", "{{x}}", " sp "}[g.r.Intn(4)], "n": g.r.Range(0, 3), "t": "T", "yes": true, "no": false,
 			"xs": []interface{}{"1", "{", "}}"}[:g.r.Range(0, 3)]}
-		emit(Case{"kind": "render", "oracle": "pug", "doc": doc, "data": data, "bucket": "tree", "depth": exprDepth(doc), "what": "tree"})
+		c := Case{"kind": "render", "oracle": "pug", "doc": doc, "data": data, "bucket": "tree", "depth": exprDepth(doc), "what": "tree"}
+		if prevDoc != nil && g.r.Chance(1, 5) {
+			// another page in the same directory (compiled before or after this one): nothing of it may carry over
+			c["siblings"] = []interface{}{prevDoc, prevDoc}
+			c["bucket"] = "tree+siblings"
+		}
+		emit(c)
+		prevDoc = doc
 	}
 }
